@@ -248,3 +248,5 @@ PROPS['C14']['expect_probes'] = PROPS['C14']['expect_probes'] + ['registry_asked
 PROPS['C10']['expect_probes'] = PROPS['C10']['expect_probes'] + ['range_fits_in_application_width_only']
 PROPS['C19']['expect_probes'] = PROPS['C19']['expect_probes'] + ['F10_function_not_exported_resolves_to_null']
 PROPS['C15']['expect_probes'] = PROPS['C15']['expect_probes'] + ['backend_location_is_not_address_of_representation_0']
+PROPS['C14']['expect_probes'] = PROPS['C14']['expect_probes'] + ['zero_elements_requested_outside_window']
+PROPS['C12']['expect_probes'] = PROPS['C12']['expect_probes'] + ['callback_with_enum_wider_than_int']
